@@ -6,8 +6,11 @@ import (
 	"bytes"
 	"encoding/hex"
 	"fmt"
+	"math/big"
 	"reflect"
+	"regexp"
 	"strings"
+	"time"
 
 	kmip "github.com/ovh/kmip-go"
 	"github.com/ovh/kmip-go/payloads"
@@ -67,6 +70,123 @@ func ErrClass(err error) string {
 
 // CheckMessage runs the C01 oracle on one message (pointer to RequestMessage/ResponseMessage).
 // It returns the encoding and whether every clause held.
+// unwrapValue strips generic ttlv.Value wrappers (and the interface inside them).
+func unwrapValue(v reflect.Value) reflect.Value {
+	for v.IsValid() && v.Type() == reflect.TypeFor[ttlv.Value]() {
+		inner := v.FieldByName("Value")
+		if inner.IsNil() {
+			return reflect.Value{}
+		}
+		v = inner.Elem()
+	}
+	return v
+}
+
+var goDiffClassRe = regexp.MustCompile(`\[\d+\]|: .*$`)
+
+// goDiff compares the ORIGINAL message with the decoded one as Go values: the same alternatives of a union must be
+// populated, the same concrete types must sit behind interfaces, absent stays absent. It returns "" or the first
+// difference. Equal instants, equal big integers and nil/empty slices count as equal.
+func goDiff(a, b reflect.Value, path string, depth int) string {
+	if depth > 60 {
+		return ""
+	}
+	if !a.IsValid() || !b.IsValid() {
+		if a.IsValid() != b.IsValid() {
+			return path + ": present on one side only"
+		}
+		return ""
+	}
+	if a.Type() != b.Type() {
+		return fmt.Sprintf("%s: %s vs %s", path, a.Type(), b.Type())
+	}
+	switch t := a.Type(); {
+	case t == reflect.TypeFor[time.Time]():
+		if !a.Interface().(time.Time).Equal(b.Interface().(time.Time)) {
+			return fmt.Sprintf("%s: %v vs %v", path, a.Interface(), b.Interface())
+		}
+		return ""
+	case t == reflect.TypeFor[big.Int]():
+		x, y := a.Interface().(big.Int), b.Interface().(big.Int)
+		if x.Cmp(&y) != 0 {
+			return fmt.Sprintf("%s: %s vs %s", path, x.String(), y.String())
+		}
+		return ""
+	}
+	switch a.Kind() {
+	case reflect.Interface:
+		// a value without a type of its own on the wire (custom attribute value, opaque field) comes back wrapped in
+		// a generic ttlv.Value: its content is what is compared
+		if !a.IsNil() && !b.IsNil() {
+			ua, ub := unwrapValue(a.Elem()), unwrapValue(b.Elem())
+			if ua.IsValid() && ub.IsValid() {
+				return goDiff(ua, ub, path, depth+1)
+			}
+			if ua.IsValid() != ub.IsValid() {
+				return path + ": a value on one side, nothing on the other"
+			}
+			return ""
+		}
+		if a.IsNil() != b.IsNil() {
+			return fmt.Sprintf("%s: nil=%v in the original, nil=%v decoded", path, a.IsNil(), b.IsNil())
+		}
+		return ""
+	case reflect.Pointer:
+		if a.IsNil() || b.IsNil() {
+			if a.IsNil() != b.IsNil() {
+				return fmt.Sprintf("%s: nil=%v in the original, nil=%v decoded", path, a.IsNil(), b.IsNil())
+			}
+			return ""
+		}
+		return goDiff(a.Elem(), b.Elem(), path, depth+1)
+	case reflect.Struct:
+		if a.Type() == reflect.TypeFor[ttlv.Value]() {
+			// the tag of a generic value that fills a field (or is an attribute's value) is the element's tag, not its own
+			ua, ub := unwrapValue(a), unwrapValue(b)
+			if ua.IsValid() != ub.IsValid() {
+				return path + ": a value on one side, nothing on the other"
+			}
+			if !ua.IsValid() {
+				return ""
+			}
+			return goDiff(ua, ub, path, depth+1)
+		}
+		for i := 0; i < a.NumField(); i++ {
+			f := a.Type().Field(i)
+			if !f.IsExported() {
+				continue
+			}
+			if d := goDiff(a.Field(i), b.Field(i), path+"."+f.Name, depth+1); d != "" {
+				return d
+			}
+		}
+		return ""
+	case reflect.Slice:
+		if a.Len() != b.Len() {
+			return fmt.Sprintf("%s: %d vs %d elements", path, a.Len(), b.Len())
+		}
+		for i := 0; i < a.Len(); i++ {
+			if a.Type().Elem() == reflect.TypeFor[ttlv.Value]() {
+				// children of a generic structure do carry their own tags
+				if ta, tb := a.Index(i).FieldByName("Tag").Int(), b.Index(i).FieldByName("Tag").Int(); ta != tb {
+					return fmt.Sprintf("%s[%d].Tag: %#x vs %#x", path, i, ta, tb)
+				}
+			}
+			if d := goDiff(a.Index(i), b.Index(i), fmt.Sprintf("%s[%d]", path, i), depth+1); d != "" {
+				return d
+			}
+		}
+		return ""
+	case reflect.Map:
+		return ""
+	default:
+		if a.CanInterface() && b.CanInterface() && !reflect.DeepEqual(a.Interface(), b.Interface()) {
+			return fmt.Sprintf("%s: %v vs %v", path, a.Interface(), b.Interface())
+		}
+		return ""
+	}
+}
+
 // the previous MarshalTTLV result and a private copy of it (workers are single-threaded)
 var kept struct{ bytes, copy []byte }
 
@@ -129,6 +249,14 @@ func CheckMessage(c *core.Ctx, prop string, msg any, minor int, desc string) ([]
 		c.Violation(prop+":decoded:"+d.Kind+":"+Where(d), "decoded message differs in content from the original: "+d.Detail+" in "+Where(d),
 			map[string]any{"message": desc, "expected": exp.String(), "decoded": got.String(), "bytes": hx(enc)})
 		return enc, false
+	}
+	if prop == "C01" {
+		// equal in content as Go values too (the message was generated for this version, nothing is gated away)
+		if d := goDiff(reflect.ValueOf(msg), reflect.ValueOf(back), "message", 0); d != "" {
+			c.Violation(prop+":decoded-go-value-differs:"+goDiffClassRe.ReplaceAllString(d, ""), "the decoded message differs from the original as a Go value although both have the same wire form: "+d, map[string]any{"message": desc, "bytes": hx(enc)})
+			return enc, false
+		}
+		c.Count("go_values_compared", 1)
 	}
 	var re []byte
 	if p, v, st := core.Guard(func() { re = ttlv.MarshalTTLV(back) }); p {
